@@ -28,6 +28,20 @@ Theorem C06_close_once : forall c s c0 s' b,
   sub_closed b = false /\ sub_cancelled b = true.
 Proof. exact close_once. Qed.
 
+(* ... and it DOES get closed (the progress half of "exactly once"): for a subscription whose context has ended and
+   whose channel is still open, the closer goroutine's step (LSubUnreg: unsubscribe, then close) is enabled as soon
+   as SubscribeStateChanges has run (sub_started), and that set-up step (LSubDo) is enabled before; hence in every
+   quiescent state every cancelled subscription's channel is closed. *)
+Theorem C06_cancelled_gets_closed : forall c s c0 b,
+  find_sub c0 (subs s) = Some b -> sub_cancelled b = true -> sub_closed b = false ->
+  (sub_started b = true -> step c s (LSubUnreg c0) <> None) /\
+  (sub_started b = false -> step c s (LSubDo c0) <> None).
+Proof. exact sup_c06_cancelled_gets_closed. Qed.
+
+Theorem C06_quiescent_closed : forall c s c0 b,
+  quiescent c s = true -> find_sub c0 (subs s) = Some b -> sub_cancelled b = true -> sub_closed b = true.
+Proof. exact sup_c06_quiescent_closed. Qed.
+
 (* ... and a closed channel is never a broadcast target again (no send on a closed channel). *)
 Theorem C06_no_send_on_closed : forall c s,
   reachable_sup c s -> forall b, In b (subs s) -> sub_closed b = true -> sub_registered b = false.
@@ -49,6 +63,17 @@ Theorem C06_final_is_state_at_stopret : forall c s i s',
   fin_at s' i = Some (cur_at s i).
 Proof. exact stopret_records. Qed.
 
+(* ... it is also stored into the map at that very step (definitional), so the map is right from each Stop()
+   return on.  When the shutdown timeout ENDS the wait (sd_timed_out = true) C06_after_shutdown does not apply:
+   the stores after the wait are skipped (the monitors may still be running) and a monitor that was still
+   catching up may have written an older value after this store - for such a shutdown only this step-level
+   statement holds in general; the trace monitor C06.final checks the timed-out case for the entries that have
+   no other writer (monitor never subscribed, not Reloadable: harness family timeoutfinal). *)
+Theorem C06_stop_stores_state : forall c s i s',
+  step c s (LStopRet i) = Some s' -> stateable (spec c i) = true -> i < length (smap s) ->
+  smap_at s' i = Some (cur_at s i).
+Proof. exact stopret_stores. Qed.
+
 (* ... and nothing but a Stop() return ever changes a recorded value *)
 Theorem C06_final_stable : forall c s l s' i v,
   step c s l = Some s' -> fin_at s i = Some v -> (forall j, l <> LStopRet j) -> fin_at s' i = Some v.
@@ -61,11 +86,11 @@ Definition c06_bad_cfg : config :=
                    stop_style := StopNonBlocking; run_exit := ExitOnSignal; held_sub := false |} ];
      startup_may_fire := false; shutdown_may_fire := false |}.
 Definition c06_bad_sched : list label :=
-  [LLaunch 0; LRunStore 0; LRunCall 0; LMonSub 0; LMonRecv 0; LPoll 0 true; LGateDecide 0;
+  [LRunEnter; LRunEntered; LLaunch 0; LRunStore 0; LRunCall 0; LMonSub 0; LMonRecv 0; LPoll 0 true; LGateDecide 0;
    LCall 1 OpShutdown; LCallerGo 1; LStopCall 0; LEmit 0 4; LEmit 0 5; LRunRet 0 None; LStopRet 0;
    LMonRecv 0; LSdCancel; LStmExit; LSdWgDone; LReapCtx; LMainShutdown; LMainReturn ResNil].
 Example C06_witness_before_restore :
-  exists s1, run (step c06_bad_cfg) (init c06_bad_cfg) (firstn 15 c06_bad_sched) = Some s1 /\
+  exists s1, run (step c06_bad_cfg) (init c06_bad_cfg) (firstn 17 c06_bad_sched) = Some s1 /\
              smap_at s1 0 = Some 4 /\ fin_at s1 0 = Some 5.
 Proof. eexists. split; [vm_compute; reflexivity|]. split; reflexivity. Qed.
 Example C06_witness_repaired :
@@ -77,8 +102,11 @@ Print Assumptions C06_converge.
 Print Assumptions C06_after_shutdown.
 Print Assumptions C06_final_is_state_at_stopret.
 Print Assumptions C06_final_stable.
+Print Assumptions C06_stop_stores_state.
 Print Assumptions C06_dedupe.
 Print Assumptions C06_close_once.
+Print Assumptions C06_cancelled_gets_closed.
+Print Assumptions C06_quiescent_closed.
 Print Assumptions C06_no_send_on_closed.
 
 (* non-vacuity: the late-subscription history that used to leave a stale map (F13): the runnable
@@ -88,11 +116,26 @@ Definition c06_cfg : config :=
                    stop_style := StopNonBlocking; run_exit := ExitOnSignal; held_sub := true |} ];
      startup_may_fire := false; shutdown_may_fire := false |}.
 Definition c06_sched : list label :=
-  [LLaunch 0; LRunStore 0; LRunCall 0; LEmit 0 2; LSubRel 0; LMonSub 0; LMonRecv 0; LMonBcast 0].
+  [LRunEnter; LRunEntered; LLaunch 0; LRunStore 0; LRunCall 0; LEmit 0 2; LSubRel 0; LMonSub 0; LMonRecv 0; LMonBcast 0].
 Example C06_ex_late_subscription :
   exists s, run (step c06_cfg) (init c06_cfg) c06_sched = Some s /\
             smap_at s 0 = Some 2 /\ cur_at s 0 = 2 /\ ran (rn_at s 0).
 Proof. eexists. split; [vm_compute; reflexivity|]. split; [reflexivity|]. split; [reflexivity|exact Logic.I]. Qed.
+
+(* non-vacuity of C06_cancelled_gets_closed / C06_quiescent_closed: a subscription is cancelled; the closer's
+   step is enabled (so the state is not quiescent); after it the channel is closed and the state is quiescent *)
+Example C06_ex_cancelled_closed :
+  exists s b s' b',
+    run (step c06_bad_cfg) (init c06_bad_cfg)
+        [LRunEnter; LRunEntered; LLaunch 0; LRunStore 0; LRunCall 0; LMonSub 0; LMonRecv 0; LSubscribe 7; LSubDo 7; LSubCancel 7] = Some s /\
+    find_sub 7 (subs s) = Some b /\ sub_cancelled b = true /\ sub_closed b = false /\ sub_started b = true /\
+    quiescent c06_bad_cfg s = false /\
+    step c06_bad_cfg s (LSubUnreg 7) = Some s' /\ find_sub 7 (subs s') = Some b' /\ sub_closed b' = true /\
+    quiescent c06_bad_cfg s' = true.
+Proof.
+  eexists. eexists. eexists. eexists. split; [vm_compute; reflexivity|]. split; [vm_compute; reflexivity|].
+  repeat split; vm_compute; reflexivity.
+Qed.
 
 (* ---- the subscriber clause ---- *)
 
@@ -121,7 +164,7 @@ Print Assumptions C06_subscriber.
 Print Assumptions C06_subscriber_drained.
 
 (* non-vacuity: a subscriber follows a state change of a running runnable *)
-Definition c06_sub_pre : list label := [LLaunch 0; LRunStore 0; LRunCall 0; LMonSub 0; LMonRecv 0; LSubscribe 7].
+Definition c06_sub_pre : list label := [LRunEnter; LRunEntered; LLaunch 0; LRunStore 0; LRunCall 0; LMonSub 0; LMonRecv 0; LSubscribe 7].
 Definition c06_sub_run : list label :=
   [LSubRecv 7 [Some 0]; LEmit 0 2; LMonRecv 0; LMonBcast 0; LSubRecv 7 [Some 2]; LPoll 0 true; LGateDecide 0].
 Example C06_ex_subscriber :
